@@ -219,7 +219,9 @@ fn sequences(ctx: &mut Ctx, arena: bool, nseq: u64, maxlen: u64) {
     }
 }
 
-pub fn run(ctx: &mut Ctx) {
+pub const NAMES: &[&str] = &["C06", "C07", "zdd"];
+
+pub fn run(ctx: &mut Ctx, _name: &str) {
     // corpus: the witness of the repaired arena difference defect runs first
     for arena in [true, false] {
         let mut api = new_api(arena);
